@@ -223,6 +223,15 @@ def trace_facet(ctx, workdir):
         ctx.observe("repo_tests_recorded", {"traces_of_mh_type_samplers": len(rt), "pytest_returncode": rc})
         traces += rt
         src += ["repo-tests"] * len(rt)
+    # a step whose facets could not be computed is logged with `facet_error` and is NOT judged by the trace spec: it must
+    # not disappear silently (on a broken tree the facet computation itself may be what fails)
+    ferr = [(t.get("meta") or {}, e["facet_error"]) for t in traces for e in t["events"] if e.get("e") == "step" and "facet_error" in e]
+    if ferr:
+        ctx.observe("trace_steps_without_facets", {"count": len(ferr), "example": [ferr[0][0].get("cls"), ferr[0][1]]})
+    n_own_err = sum(1 for t in traces[:src.count("own")] for e in t["events"] if e.get("e") == "step" and "facet_error" in e)
+    deferred = None
+    if n_own_err:       # raised at the end: the traces that can be judged are judged first
+        deferred = "%d recorded steps of the harness's own runs carry no facets (facet computation raised: %s)" % (n_own_err, ferr[0][1])
     verdicts = trace.validate(ctx, traces, "TraceMHKernel", TRACE_CFG, extra_modules=("MHKernel.tla",), label="c02trace")
     judged = 0
     for v, t, sname in zip(verdicts, traces, src):
@@ -266,6 +275,8 @@ def trace_facet(ctx, workdir):
             raise MachineryError("corrupted trace (%s) was accepted: trace binding is not effective" % nm)
     ctx.observe("binding_selftest_trace", "3 corruptions of an accepted trace rejected (stale cache, non-finite move, move without acceptance)")
     ctx.sample({"trace": good["meta"], "first_events": good["events"][:4]})
+    if deferred:
+        raise MachineryError(deferred)
 
 
 # ----------------------------------------------------------------------------------------------------------------
@@ -345,6 +356,9 @@ def replay_facet(ctx, roots, behs, limit):
             ctx.traces += 1
     ctx.observe("replay", {"behaviours_emitted": len(behs), "behaviours_replayed": len(chosen), "edges_covered": nedges,
                            "real_transitions": ntrans, "wall_s": round(time.time() - t0, 1)})
+    if R.UNUSED_DRAWS["transitions"]:
+        # conforming transitions that did not consume every scripted draw (number of draws is not fixed by the property)
+        ctx.observe("scripted_draws_unused_by_conforming_transitions", dict(R.UNUSED_DRAWS))
     # binding self-test: the opposite uniform must flip the decision and be reported
     flipped = 0
     for b in chosen:
@@ -426,7 +440,7 @@ def run(ctx):
     try:
         if job_error is not None:
             raise job_error
-        if trace_error is not None:
+        if trace_error is not None and not isinstance(trace_error, MachineryError):
             raise trace_error
         ctx.model_must_hold(res["main"], "MHKernel")
         ctx.model_must_hold(res["deep"], "MHKernel(deep)")
@@ -461,6 +475,8 @@ def run(ctx):
         if pcn:
             ctx.sample({"behaviour": {"cfg": pcn["cfg"], "prog": pcn["prog"][:2]}})
         probes(ctx)
+        if trace_error is not None:     # machinery problem of the trace facet: reported after the replay facet has run
+            raise trace_error
     finally:
         from cuqiverif import tlc
         import shutil
